@@ -37,6 +37,7 @@ EXOTIC = ["\u00a0", "\u2003", "\u0085", "\u2028", "\u3000", "\u2029", "\x7f", "\
 _plain_piece = st.sampled_from(["a", "b", " ", "  ", "\t", "x y", "#", ",", "'", "{", "}", "$", "/", "é", "0"])
 _escape_piece = st.one_of(
     st.sampled_from(['\\"', "\\\\", "\\/", "\\b", "\\f", "\\n", "\\r", "\\t"]),
+    st.sampled_from(['\\"\\"\\"', '\\"\\"\\"\\"', '\\"\\"\\"\\"\\"', '\\"\\"\\"\\"\\"\\"\\"']),   # runs of quotes (a block string when printed as a description)
     st.builds(lambda h: "\\u" + h, st.text("0123456789abcdefABCDEF", min_size=4, max_size=4)),
     st.sampled_from(["\\u0041", "\\uD83D", "\\uDE00", "\\u0000", "\\uFFFF", "\\u000a", "\\u2028"]),
 )
@@ -53,7 +54,9 @@ def _quoted():
 
 def _block():
     indent = st.sampled_from(["", "", " ", "  ", "\t", "    ", " \t", "\u00a0", "\u3000 ", "\u2003"])
-    body = st.sampled_from(["", "", "a", "b c", "x", '\\"""', "\\", '"', '""', "\\n", "\u00e9", "\U0001F600",
+    body = st.sampled_from(["", "", "a", "b c", "x", '\\"""', "\\", '"', '""', "\\n",
+                            '\\""""', '"\\"""', '\\"""\\"""', '\\"""""', 'x\\""""y', '""\\"""', '\\"""\\""""',
+                            "\u00e9", "\U0001F600",   # (the line above: runs of >= 4 quotes)
                             "\u2028", "\u0085", "\u2029", "\u00a0z", "#", "\x1c", "\x1d", "\x1e", "\u3000", "\u00a0"])
     line = st.builds(lambda i, b, t: i + b + t, indent, body, st.sampled_from(["", "", " ", "\t"]))
     nl = st.sampled_from(["\n", "\n", "\r\n", "\r"])
@@ -482,7 +485,7 @@ def mutated(draw, tokens):
     """-> (label, new_tokens_or_text, is_text)."""
     toks = list(tokens)
     n = len(toks)
-    k = draw(st.integers(0, 11))
+    k = draw(st.integers(0, 12))
     if n == 0:
         return ("junk-only", [draw(st.sampled_from(_JUNK))], False)
     i = draw(st.integers(0, n - 1))
@@ -537,6 +540,24 @@ def mutated(draw, tokens):
         p = draw(st.integers(0, len(text)))
         c = draw(st.sampled_from(["\x00", "\x08", "\x0b", "\x0c", "\x1f", "\x7f", "\u2028", "\ufeff", "\ud800", "\\", '"', "."]))
         return ("inject-char", text[:p] + c + text[p:], True)
+    if k == 12:
+        # a number whose integer part gets a leading zero (after the sign, if any), or a letter / dot glued to its end
+        idx = [x for x, t in enumerate(toks) if t and (t[0].isdigit() or (t[0] == "-" and t[1:2].isdigit())) and t.isascii()]
+        if idx:
+            x = draw(st.sampled_from(idx))
+            t = toks[x]
+            sign, body = ("-", t[1:]) if t[0] == "-" else ("", t)
+            v = draw(st.integers(0, 5))
+            if v <= 2:
+                toks[x] = sign + draw(st.sampled_from(["0", "00"])) + body
+            elif v == 3:
+                toks[x] = t + draw(st.sampled_from(["a", "_", "e", "x1", "."]))
+            elif v == 4:
+                toks[x] = sign + "0" + draw(st.sampled_from(["x1F", "b1", "_1"]))
+            else:
+                toks[x] = ("" if sign else "-") + body
+            return ("number-spelling", toks, False)
+        return ("noop", toks, False)
     if k == 11:
         # a reserved word where a name follows a description (or any other string): `"about" true`, `"""d""" on`, ...
         idx = [x for x in range(1, len(toks)) if toks[x] and toks[x][0] in _NAMEISH and not toks[x][0].isdigit()
